@@ -35,6 +35,9 @@ func init() {
 			ruleIndexResetOnEveryPath(c, "R5c")
 			ruleInterceptorSelection(c, "R12")
 			ruleConfiguredInterceptorsUsed(c, "R13")
+			ruleSuffixSearchResumesAtNextByte(c, "R14")
+			ruleRegexpSuffixComparedBytewise(c, "R15")
+			ruleExhaustedPathPrefersTheNode(c, "R16")
 		},
 	})
 }
